@@ -25,7 +25,7 @@ check('C25', title='Concurrent senders get unique consecutive sequence numbers',
       technique='preemption-bounded exhaustive exploration of thread schedules of the real send path (Session::send / send_batch, FIXWriter::write / write_batch / execute, Session::send_process, persister) under a cooperative '
                 'scheduler, threaded and pipelined process models; oracle on every complete execution; the same schedules repeated under ThreadSanitizer for the data-race clause',
       design_ref='DESIGN.md §3 C25, §2.3',
-      text='N sender threads run scripts of send() (message handed over, or kept by the caller: destroy=false) and send_batch() calls on one real Session + ClientConnection over a scripted socket and a real MemoryPersister / FilePersister; in the pipelined model the real writer '
+      text='N sender threads run scripts of send() (message handed over, kept by the caller: destroy=false, or passed by reference: send(Message&)) and send_batch() calls on one real Session + ClientConnection over a scripted socket and a real MemoryPersister / FilePersister; in the pipelined model the real writer '
            'thread pops the real FastFlow queue. Every schedule with at most b preemptions is executed. Checked per execution: the messages on the wire carry MsgSeqNum start, start+1, ... in wire order; every message handed '
            'to send/send_batch is on the wire exactly once and nothing else is; every socket write is a sequence of whole messages; the store returns under each number exactly the bytes transmitted under it and holds nothing '
            'else; the control record and the session counter equal start + number of messages; every send reports success; no deadlock, livelock (a message never written), crash; and in the tsan parts no ThreadSanitizer report.',
@@ -43,6 +43,7 @@ check('C25', title='Concurrent senders get unique consecutive sequence numbers',
           _p('pipe-keep', 'schedp', ['pm=p', 'ops=n,s', 'bound=2'], ['pm=p', 'ops=ns,sn', 'bound=2']),
           _p('thr-keep', 'schedp', ['pm=t', 'ops=ns,sn', 'bound=3'], ['pm=t', 'ops=ns,sn', 'bound=5']),
           _p('pipe-batch', 'schedp', ['pm=p', 'ops=s,b', 'bound=1'], ['pm=p', 'ops=s,b', 'bound=2']),
+          _p('thr-byref', 'schedp', ['pm=t', 'ops=ms,sm', 'bound=3'], ['pm=t', 'ops=msb,bsm', 'bound=3']),
           _p('thr-two-sessions', 'schedp', ['pm=t2', 'ops=ss,ss', 'bound=2'], ['pm=t2', 'ops=sbs,ssb', 'bound=3']),
           _p('thr-in-out', 'schedp', ['pm=t', 'ops=ss,aa', 'bound=3'], ['pm=t', 'ops=sb,aaa', 'bound=4']),
           _p('tsan-thr', 'tsan', ['pm=t', 'ops=ss,ss', 'bound=2'], ['pm=t', 'ops=sb,bs', 'bound=3']),
